@@ -156,4 +156,9 @@ Emit == (Done /\ EmitMod > 0 /\ Hash % EmitMod = 0) =>
                   defaults |-> [n \in mi.sN \cup mi.pN |-> Eval(mi.ex[n], <<>>, FALSE)],
                   unused |-> {n \in mi.iN : ~HasDependents(mi, n)},
                   cases |-> [ii \in 1..Len(Inputs) |-> [input |-> InputJson(Inputs[ii]), expect |-> Expect(Inputs[ii])]]]))
+\* models on which the iteration schedule of the dependency sets changes the layout (FreeSchedule = TRUE only):
+\* the witnesses of C09 that the harness replays under different hash seeds
+EmitSchedSensitive == (Done /\ lay # Layout(mi, CanonSched(mi))) =>
+   PrintT(ToJson([blocks |-> BlocksJson(ModelOf(deps, layout).blocks), sched |-> sched,
+                  state_order |-> lay.state, canonical_state_order |-> Layout(mi, CanonSched(mi)).state]))
 =============================================================================
